@@ -1,7 +1,8 @@
 (* Property C17, event level, comment insertion.  A relational Hoare logic for the block parser of
    Model/Parser.v under the one-sided relation [jsim]: the right token list is the left one with
-   block comment tokens inserted directly after a word token and directly before a blank
-   token ("between two words"), outside braces.
+   block comment tokens inserted directly after a word or number token ([is_single_word_tok]: what a
+   one-word component name is made of) and directly before a blank token ("between two words"),
+   outside braces.
 
    Unlike [ksim] (Proofs/EditSimDefs.v) this is not one-to-one: after the parser has consumed a
    word token individually (a one-word component name, the first token of a text run) the two runs
@@ -11,6 +12,9 @@
 From CL Require Import Base.StrLemmas Model.Lexer Model.PText Model.CommentMask Model.Parser Model.Edits
   Proofs.EditParserProofs Proofs.EditSimDefs.
 
+(* word and number tokens: never a brace, a newline, a blank or a comment *)
+Notation swt := is_single_word_tok.
+
 (* inside `{ ... }` (token-level bracket state) nothing is inserted *)
 Inductive mode := MOut | MIn.
 Definition next_mode (m : mode) (k : tkind) : mode :=
@@ -18,11 +22,18 @@ Definition next_mode (m : mode) (k : tkind) : mode :=
 Fixpoint mode_after (m : mode) (ts : list tok) : mode :=
   match ts with [] => m | t :: r => mode_after (next_mode m (kind t)) r end.
 
+Lemma swt_next_mode m k : swt k = true -> next_mode m k = m.
+Proof. destruct k; intro H; try discriminate; reflexivity. Qed.
+Lemma swt_not_nl k : swt k = true -> tk_eqb k KNewline = false.
+Proof. destruct k; intro H; try discriminate; reflexivity. Qed.
+Lemma swt_not_wsb k : swt k = true -> is_ws_block k = false.
+Proof. destruct k; intro H; try discriminate; reflexivity. Qed.
+
 Inductive jsim : mode -> list tok -> list tok -> Prop :=
 | j_nil m : jsim m [] []
 | j_cons m a b r1 r2 : krel a b -> jsim (next_mode m (kind a)) r1 r2 -> jsim m (a :: r1) (b :: r2)
 | j_ins a b cm w r1 r2 :
-    krel a b -> kind a = KWord -> kind cm = KBlockComment -> tstr cm <> [] -> kind w = KWs ->
+    krel a b -> is_single_word_tok (kind a) = true -> kind cm = KBlockComment -> tstr cm <> [] -> kind w = KWs ->
     jsim MOut (w :: r1) r2 -> jsim MOut (a :: w :: r1) (b :: cm :: r2).
 
 Definition jany (l1 l2 : list tok) : Prop := exists m, jsim m l1 l2.
